@@ -187,6 +187,17 @@ def gen_engine():
                    "unbind_external_function", "set_error_handler", "set_allow_external_function_fallbacks", "new"}
     reg_ok = all(x.split(":")[1] in allowed_fns for x in regw) and len(regw) > 0
     facts.update({"engine.registration_writers": regw, "engine.registrations_written_by_registration_calls": reg_ok})
+    # 15. Story::load_state hands the text to StoryState::load_json and touches nothing else of the Story;
+    # Story::reset_state REPLACES the StoryState (it does not read the old one) and then runs reset_globals
+    # (Shell/HostFrameLoad.v: a load writes the StoryState only; Shell/ResetProofs.v: reset ignores the old state)
+    lbody = re.sub(r"\s+", "", fn_body(stt, "load_state"))
+    load_only = bool(re.fullmatch(
+        r"\{?self\.if_async_we_cant\(\"[^\"]*\"\)\?;self\.get_state_mut\(\)\.load_json\(json_state\)\}?", lbody))
+    rbody = re.sub(r"\s+", "", fn_body(stt, "reset_state"))
+    i_new = rbody.find("self.state=StoryState::new(")
+    reset_replaces = (i_new >= 0 and "self.state." not in rbody[:i_new] and "get_state" not in rbody[:i_new]
+                      and "self.reset_globals()" in rbody[i_new:])
+    facts.update({"engine.load_writes_state_only": load_only, "engine.reset_replaces_state": reset_replaces})
     b = lambda x: "true" if x else "false"
     out = ("(* GENERATED by tools/gen_engine.py from runtime/src/{story_state.rs,story/variable_observer.rs,"
            "story/control_logic.rs} — do not edit *)\n"
@@ -213,5 +224,9 @@ def gen_engine():
            f"Definition lookahead_structure_confined : bool := {b(struct_ok)}.\n"
            "(* what the host has registered (observers, externals, error handler, fallbacks flag) is written by the\n"
            "   registration calls only *)\n"
-           f"Definition registrations_written_by_registration_calls : bool := {b(reg_ok)}.\n")
+           f"Definition registrations_written_by_registration_calls : bool := {b(reg_ok)}.\n"
+           "(* Story::load_state = async guard + StoryState::load_json, nothing else of the Story is touched;\n"
+           "   Story::reset_state replaces the StoryState without reading the old one, then reset_globals *)\n"
+           f"Definition load_writes_state_only : bool := {b(load_only)}.\n"
+           f"Definition reset_replaces_state : bool := {b(reset_replaces)}.\n")
     return write_if_changed("theories/Gen/EngineGen.v", out), facts
